@@ -1058,3 +1058,27 @@ def files0_cli(w, repo):
     if dev:
         return True, "; ".join(dev[:3])
     return None, "-files0-from behaves like the reference for the files tried"
+
+
+def wiring_cli(w, repo):
+    """scenario battery for do_xargs' wiring: -s alongside the system limit, -n/-L values, reader selection"""
+    if not build(repo):
+        return None, "build failed"
+    res = []
+    with Sandbox() as d:
+        # a user -s far above what the kernel accepts must not replace the system limit: 30 arguments of 100 kB
+        big = os.path.join(d, "big.txt")
+        with open(big, "w") as f:
+            for i in range(30):
+                f.write("a" * 100000 + "\n")
+        rc, out, err = run([xargs_bin(repo), "-a", big, "-s", "3000000", "true"], cwd=d, env={"PATH": os.environ.get("PATH", "/usr/bin:/bin")})
+        res.append(("-s 3000000 with 3 MB of arguments: rc=%d %s" % (rc, err.decode(errors="replace").strip()[:80]), rc == 0))
+        rc, calls, err = _xargs(repo, d, ["-n2"], b"a b c d e\n")
+        res.append(("-n2 %r" % calls, calls == [["a", "b"], ["c", "d"], ["e"]]))
+        rc, calls, err = _xargs(repo, d, ["-L1"], b"a b\nc\n")
+        res.append(("-L1 %r" % calls, calls == [["a", "b"], ["c"]]))
+        rc, calls, err = _xargs(repo, d, ["-d", ","], b"a b,c")
+        res.append(("-d , keeps blanks: %r" % calls, [" ".join(c) for c in calls] == ["a b c"] or calls == [["a", "b", "c"]]))
+        rc, calls, err = _xargs(repo, d, ["-0"], b"a'b\0c")
+        res.append(("-0 takes quotes literally: %r rc=%d" % (calls, rc), rc == 0 and calls == [["a'b", "c"]]))
+    return _battery(res)
